@@ -994,6 +994,14 @@ class Atoms:
             four_body_terms.extend(self.impropers)
             four_body_terms = np.array(four_body_terms)
 
+            # every row of the torsion loop needs a value in every extra column: impropers get their own value where they carry
+            # a column with the same label, "." otherwise
+            extra_torsion_fields = np.full((len(four_body_terms), len(self.extra_dihedral_labels)), ".", dtype=object)
+            extra_torsion_fields[0:len(self.dihedrals), :] = self.extra_dihedral_fields
+            for col, label in enumerate(self.extra_dihedral_labels):
+                if label in self.extra_improper_labels:
+                    extra_torsion_fields[len(self.dihedrals):, col] = self.extra_improper_fields[:, self.extra_improper_labels.index(label)]
+
             add_loop(block, [
                     "_geom_torsion_atom_site_label_1",
                     "_geom_torsion_atom_site_label_2",
@@ -1005,7 +1013,7 @@ class Atoms:
                     [atom_labels[i] for i in four_body_terms[:,1]],
                     [atom_labels[i] for i in four_body_terms[:,2]],
                     [atom_labels[i] for i in four_body_terms[:,3]],
-                    *self.extra_dihedral_fields.T,
+                    *extra_torsion_fields.T,
                 ])
 
         f.write(cf.WriteOut(comment="# CIF file created by MOFUN using PyCifRW."))
